@@ -266,7 +266,7 @@ impl<'de> Deserializer<'de> for AbsDe {
 		tuple_struct map struct enum identifier ignored_any
 	}
 }
-struct StepSeq { remaining: u8 }
+struct StepSeq { remaining: u8, hint: Option<usize> }
 impl<'de> de::SeqAccess<'de> for StepSeq {
 	type Error = DeErr;
 	fn next_element_seed<T: DeserializeSeed<'de>>(&mut self, seed: T) -> Result<Option<T::Value>, DeErr> {
@@ -276,9 +276,9 @@ impl<'de> de::SeqAccess<'de> for StepSeq {
 		de_log(E_ELEM, 0);
 		seed.deserialize(AbsDe).map(Some)
 	}
-	fn size_hint(&self) -> Option<usize> { Some(self.remaining as usize) }
+	fn size_hint(&self) -> Option<usize> { self.hint }
 }
-struct StepMap { remaining: u8 }
+struct StepMap { remaining: u8, hint: Option<usize> }
 impl<'de> de::MapAccess<'de> for StepMap {
 	type Error = DeErr;
 	fn next_key_seed<K: DeserializeSeed<'de>>(&mut self, seed: K) -> Result<Option<K::Value>, DeErr> {
@@ -293,7 +293,7 @@ impl<'de> de::MapAccess<'de> for StepMap {
 		de_log(E_VAL, 0);
 		seed.deserialize(AbsDe)
 	}
-	fn size_hint(&self) -> Option<usize> { Some(self.remaining as usize) }
+	fn size_hint(&self) -> Option<usize> { self.hint }
 }
 struct StepDe { map: bool }
 impl<'de> Deserializer<'de> for StepDe {
@@ -301,12 +301,15 @@ impl<'de> Deserializer<'de> for StepDe {
 	fn deserialize_any<V: DeVisitor<'de>>(self, v: V) -> Result<V::Value, DeErr> {
 		if self.map {
 			let n: u8 = kani::any(); kani::assume(n < 2);
-			de_log(E_MAP, n as u64);
-			v.visit_map(StepMap { remaining: n })
+			// the size hint is ANY value (a declared length of a million entries included), independent of what follows
+			let hint: Option<usize> = kani::any(); kani::assume(hint != Some(usize::MAX));
+			de_log(E_MAP, hint_code(hint));
+			v.visit_map(StepMap { remaining: n, hint })
 		} else {
 			let n: u8 = kani::any(); kani::assume(n < 3);
-			de_log(E_SEQ, n as u64);
-			v.visit_seq(StepSeq { remaining: n })
+			let hint: Option<usize> = kani::any(); kani::assume(hint != Some(usize::MAX));
+			de_log(E_SEQ, hint_code(hint));
+			v.visit_seq(StepSeq { remaining: n, hint })
 		}
 	}
 	forward_to_deserialize_any! {
